@@ -1,4 +1,12 @@
 #![allow(unused)]
+#[path = "/repo/zeep-lib/src/reader.rs"]
+pub mod reader;
+#[path = "/repo/zeep-lib/src/utils.rs"]
+pub mod utils;
+#[path = "/repo/zeep-lib/src/error.rs"]
+mod error;
+#[path = "/repo/zeep-lib/src/model/mod.rs"]
+mod model;
 #[path = "/repo/zeep-lib/src/model/helpers_content.rs"]
 mod hc;
 #[cfg(kani)]
